@@ -962,7 +962,7 @@ class Unparser:
                 t += ' %s %s' % (s['post'].upper(), expr_text(s['postc']))
             saved = self.parent
             self.parent = s['ln']
-            self.emit(t, ind, 'loop')
+            s['loopln'] = self.emit(t, ind, 'loop')
             self.parent = saved
         elif k == 'select':
             s['ln'] = self.emit('SELECT CASE ' + expr_text(s['e']), ind, 'select')
@@ -1066,7 +1066,7 @@ def strip_for_tlc(prog):
         if k == 'while':
             return {'k': 'while', 'ln': ln, 'c': ex(s['c']), 'body': blk(s['body'])}
         if k == 'do':
-            return {'k': 'do', 'ln': ln, 'pre': s['pre'], 'prec': ex(s['prec']), 'post': s['post'], 'postc': ex(s['postc']), 'body': blk(s['body'])}
+            return {'k': 'do', 'ln': ln, 'loopln': s.get('loopln', ln), 'pre': s['pre'], 'prec': ex(s['prec']), 'post': s['post'], 'postc': ex(s['postc']), 'body': blk(s['body'])}
         if k == 'select':
             def cl(x):
                 if x['k'] == 'v':
